@@ -33,6 +33,13 @@ class LoopBound(EngineSignal):
     """a loop exceeded the iteration bound of the exploration"""
 
 
+class SymRange:
+    """range(start, stop, step) with symbolic start / stop and a concrete positive step; `count` is its length"""
+
+    def __init__(self, start, stop, step, count):
+        self.start, self.stop, self.step, self.count = start, stop, step, count
+
+
 class IntegerModel(Unsupported):
     """a no-wrap side condition of the 256-bit integer model could not be established"""
 
@@ -508,7 +515,7 @@ def range_constraint(v):
 class SBytes:
     """bytearray/bytes of concrete length; cells are int (0..255) or SInt"""
 
-    __slots__ = ("cells", "mutable")
+    __slots__ = ("cells", "mutable", "_initial_cells")
 
     def __init__(self, cells, mutable=True):
         self.cells = list(cells)
@@ -660,6 +667,12 @@ class SStr:
 
 
 SYM_TYPES = (SInt, SBool, SBytes, SBuf, SMBuf, SZeros, SOpaque, SStr)
+
+
+def range_count(start, stop, step):
+    """len(range(start, stop, step)) for step >= 1 over symbolic integers"""
+    d = arith("-", stop, start)
+    return ite(compare(">", d, 0), arith("//", arith("+", d, step - 1), step), 0)
 
 
 def is_sym(x):
